@@ -404,6 +404,21 @@ func (e *Engine) cutLoop(s *State, f *Frame, lp *loop, from *ssa.BasicBlock) {
 				s.assume(Le(v[0], init))
 			}
 		}
+		// a slice variable that is only ever replaced by append(itself, ...) and starts nil or fresh
+		// refers to nil or to an array allocated by this activation (append results are fresh arrays)
+		if _, isSlice := p.Type().Underlying().(*types.Slice); isSlice && appendOnlyPhi(lp, p) {
+			init := initVals[p]
+			known := init[0] == Zero || isFreshRef(init[0])
+			want := Or(Eq(init[0], Zero), App("isfresh", SBool, init[0]))
+			for _, c := range s.pc {
+				if c == want {
+					known = true
+				}
+			}
+			if known {
+				s.assume(Or(Eq(v[0], Zero), App("isfresh", SBool, v[0])))
+			}
+		}
 		// compiler-generated slice iteration: index phi stays below len (entry: -1 < len; back edges pass `idx+1 < len`)
 		if p.Comment == "rangeindex" {
 			for _, in2 := range lp.header.Instrs {
@@ -714,4 +729,40 @@ func (e *Engine) reaches(from, to *ssa.Function) bool {
 	}
 	reachMemo[k] = res
 	return res
+}
+
+
+// appendOnlyPhi: every back-edge input of the slice phi is the phi itself or append(<same chain>, ...).
+func appendOnlyPhi(lp *loop, p *ssa.Phi) bool {
+	visiting := map[ssa.Value]bool{}
+	var fromPhi func(v ssa.Value, depth int) bool
+	fromPhi = func(v ssa.Value, depth int) bool {
+		if depth > 16 {
+			return false
+		}
+		if v == ssa.Value(p) || visiting[v] {
+			return true
+		}
+		switch x := v.(type) {
+		case *ssa.Call:
+			if b, ok := x.Call.Value.(*ssa.Builtin); ok && b.Name() == "append" {
+				return fromPhi(x.Call.Args[0], depth+1)
+			}
+		case *ssa.Phi:
+			visiting[v] = true
+			for _, e := range x.Edges {
+				if !fromPhi(e, depth+1) {
+					return false
+				}
+			}
+			return true
+		}
+		return false
+	}
+	for i, pred := range p.Block().Preds {
+		if lp.body[pred] && !fromPhi(p.Edges[i], 0) {
+			return false
+		}
+	}
+	return true
 }
